@@ -22,6 +22,8 @@ RULE = ('programs: 1..3 threads, each with a HISTORY on a FILE-backed sqlite dat
         '(create / assignment to / destroySelf of an instance loaded at the start / deleteMany), often "failing call, ordinary write, failing call"; body = 0..5 steps '
         'create / update a column of row id / delete row id (fetched inside the body; ids inside and outside the table) / assignment to and '
         'destroySelf of instances loaded BEFORE the call / class-level deleteMany, mixed or with nothing created or fetched inside the body, '
+        'steps on a third, UNIQUE column u (create with u / assignment to u through a fetched or a pre-loaded instance) that the database '
+        'refuses when another row carries the value -- guarded (the body catches DuplicateEntryError and carries on) or not --, '
         'and optionally a raise; for every seeded body '
         'also the variants raising after every prefix (including none and all); hub configurations: thread-level binding (every thread its own '
         'thread connection, real threading.Thread objects released one body step at a time by the controller, random interleavings), '
@@ -43,7 +45,9 @@ TRUSTED_BASE = [
     'modelled, not verified: sqlite locking between connections (a transaction\'s first write takes the write lock until commit/rollback; a write '
     'by another connection meanwhile raises OperationalError at once with timeout 0; reads never block in rollback-journal mode); '
     'threading.local; CPython reference counting',
-    'the body steps go through an eager two-column class bound to the hub (Cls(...), Cls.get(id).col = v, Cls.get(id).destroySelf()); '
+    'sqlite: a statement refused by the UNIQUE constraint has taken the write lock and consumes no id (validated by execution); the '
+    'UNIQUE column is written only by the u-steps (the other steps leave it NULL / alone)',
+    'the body steps go through an eager class (columns a, b, UNIQUE u) bound to the hub (Cls(...), Cls.get(id).col = v, Cls.get(id).destroySelf()); '
     'the instance caches of the connections are not part of this model (C07 has them) except that get() of an id the transaction already '
     'holds sends no SELECT',
     'ordinary writes between the calls (histories) are create / assignment to or destroySelf of an instance loaded at the start / '
@@ -60,7 +64,8 @@ TRUSTED_BASE = [
 ]
 
 TABLE = 'verif_c08_row'
-COLS = ['a', 'b']
+COLS = ['a', 'b', 'u']
+UVALS = [None, 10, 11, 12, 13]            # values of the UNIQUE column: few, so that statements collide
 _state = {'cls': None, 'hub': None, 'n': 0}
 
 
@@ -82,6 +87,7 @@ def setup_class():
             _connection = hub
             a = IntCol(default=None)
             b = IntCol(default=None)
+            u = IntCol(default=None, unique=True)
         _state['cls'], _state['hub'] = VerifC08Row, hub
     return _state['cls'], _state['hub']
 
@@ -148,6 +154,8 @@ def gen_body(rng, nrows, maxlen=5, allow_fail=True, held_only=None):
                 body.append(['hdestroy', i])
             else:
                 body.append(['deletemany', rng.randint(1, nrows + 1)])
+        elif rng.random() < 0.22:
+            body.append(gen_ustep(rng, nrows, inside=True))
         elif r < 0.35:
             body.append(['create', rng.choice(VALS), rng.choice(VALS)])
         elif r < 0.75:
@@ -160,8 +168,23 @@ def gen_body(rng, nrows, maxlen=5, allow_fail=True, held_only=None):
     return body
 
 
+def gen_ustep(rng, nrows, inside):
+    """a step on the UNIQUE column u: ['ucreate', guard, a, b, u] / ['uupdate', guard, id, u] (row fetched inside the body) /
+    ['uwrite', guard, id, u] (instance loaded at the start); guard = the program catches DuplicateEntryError and carries on"""
+    guard = rng.random() < 0.7
+    r = rng.random()
+    if nrows == 0 or r < 0.5:
+        return ['ucreate', guard, rng.choice(VALS), rng.choice(VALS), rng.choice(UVALS)]
+    if inside and r < 0.75:
+        return ['uupdate', guard, rng.randint(1, nrows + 1), rng.choice(UVALS)]
+    return ['uwrite', guard, rng.randint(1, nrows), rng.choice(UVALS)]
+
+
 def gen_rows(rng):
-    return [[rng.choice(VALS), rng.choice(VALS)] for _ in range(rng.choice([0, 1, 2, 3, 3, 4, 4, 5]))]
+    n = rng.choice([0, 1, 2, 3, 3, 4, 4, 5])
+    us = [10, 11, 12, 13, None, None]
+    rng.shuffle(us)
+    return [[rng.choice(VALS), rng.choice(VALS), us[i] if rng.random() < 0.7 else None] for i in range(n)]
 
 
 def prefix_variants(rows, body):
@@ -189,6 +212,8 @@ def gen_plain(rng, nrows):
     """an ordinary write outside any doInTransaction: a new row, an assignment to / destroySelf of an instance loaded at the
     start, a class-level delete"""
     r = rng.random()
+    if rng.random() < 0.2:
+        return gen_ustep(rng, nrows, inside=False)
     if nrows == 0 or r < 0.45:
         return ['create', rng.choice(VALS), rng.choice(VALS)]
     if r < 0.75:
@@ -258,6 +283,26 @@ def history_variants(rows, body, w):
     for k, c in enumerate(out):
         c['cache'] = k % 2 == 0
         c['poison'] = [None] * len(c['progs'])
+    return out
+
+
+def refusal_variants(rows, body, refused):
+    """the body with a statement the UNIQUE column refuses (and the body catches) put after every prefix, returning and raising
+    at the end, by one caller under each kind of binding: what the body did before the refused statement must be committed /
+    undone with the rest"""
+    out = []
+    plain = [s for s in body if s[0] != 'fail']
+    for mode in ('thread', 'process', 'mixed'):
+        for k in range(len(plain) + 1):
+            for tail in ([], [['fail', k % 4]]):
+                b = plain[:k] + [refused] + plain[k:] + tail
+                c = {'mode': mode, 'rows': rows, 'bodies': [b] if mode == 'thread' else [b, []], 'sched': [0] * (len(b) + 3)}
+                if mode == 'mixed':
+                    c['slots'], c['proc'] = [0, None], 1
+                out.append(c)
+    for k, c in enumerate(out):
+        c['cache'] = k % 2 == 0
+        c['poison'] = [None] * len(c['bodies'])
     return out
 
 
@@ -379,6 +424,19 @@ def corpus():
                 'progs': [[['call', [['create', 3, 3], ['fail', 0]]], ['plain', ['create', 4, 4]], ['call', [['delete', 1], ['fail', 1]]]],
                           [['plain', ['hupdate', 1, 0, 9]], ['call', [['update', 2, 1, 6]]], ['plain', ['hdestroy', 1]]]],
                 'sched': [0, 1, 0, 0, 1, 0, 1, 0, 1, 0, 0, 1, 0, 1]})
+    # a statement refused by the UNIQUE column in the middle of the body, caught by the body (seeded defect
+    # c08_integrityerror_rolls_back_connection: the refusal threw away what the transaction had done before it)
+    urows = [[1, 1, 10], [2, 2, None]]
+    out += refusal_variants(urows, [['create', 3, 3], ['update', 1, 0, 9], ['hupdate', 2, 1, 7]], ['ucreate', True, 5, 5, 10])
+    out += refusal_variants(urows, [['create', 3, 3], ['update', 1, 0, 9]], ['uupdate', True, 2, 10])
+    out += refusal_variants(urows, [['hupdate', 1, 0, 9], ['deletemany', 1]], ['uwrite', True, 2, 10])
+    out.append({'mode': 'thread', 'rows': urows, 'cache': True, 'poison': [None],
+                'bodies': [[['update', 2, 0, 7], ['ucreate', False, 5, 5, 10], ['create', 6, 6]]], 'sched': [0] * 5})
+    out.append({'mode': 'thread', 'rows': urows, 'cache': True, 'poison': [None, None],
+                'progs': [[['plain', ['ucreate', True, 4, 4, 10]], ['plain', ['ucreate', False, 4, 4, 10]], ['plain', ['ucreate', False, 4, 4, 11]],
+                           ['call', [['ucreate', True, 5, 5, 11], ['uwrite', True, 2, 12], ['uupdate', True, 1, 12], ['uupdate', False, 3, 10]]]],
+                          [['call', [['ucreate', True, 7, 7, 10], ['create', 8, 8]]]]],
+                'sched': [0, 0, 0, 1, 0, 0, 1, 0, 1, 0, 1, 0, 0, 1]})
     # an ordinary write while another thread's transaction holds the write lock is refused at once, nothing is written
     out.append({'mode': 'thread', 'rows': rows, 'cache': True, 'poison': [None, None],
                 'progs': [[['call', [['update', 1, 0, 5], ['create', 3, 3]]]], [['plain', ['create', 4, 4]], ['plain', ['create', 5, 5]]]],
@@ -392,6 +450,16 @@ def generate(rng, tier):
     for k in range(40 if tier == 'quick' else 400):
         rows = gen_rows(rng)
         out += prefix_variants(rows, gen_body(rng, len(rows), allow_fail=False, held_only=(k % 3 == 0 and len(rows) > 0)))
+    for k in range(10 if tier == 'quick' else 100):
+        rows = gen_rows(rng)
+        if not any(r[2] is not None for r in rows):
+            rows = rows + [[0, 0, 10]]
+        u = [r[2] for r in rows if r[2] is not None][0]
+        kind = k % 3
+        refused = (['ucreate', True, rng.choice(VALS), rng.choice(VALS), u] if kind == 0 else
+                   ['uwrite', True, [i for i, r in enumerate(rows, 1) if r[2] != u][0], u] if kind == 1 and any(r[2] != u for r in rows) else
+                   ['ucreate', True, None, None, u])
+        out += refusal_variants(rows, gen_body(rng, len(rows), maxlen=3, allow_fail=False), refused)
     for k in range(8 if tier == 'quick' else 80):
         rows = gen_rows(rng)
         out += history_variants(rows, gen_body(rng, len(rows), maxlen=3, allow_fail=False, held_only=(k % 3 == 0 and len(rows) > 0)),
@@ -410,7 +478,8 @@ def search_cases(rng, tier):
 
 
 # ------------------------------------------------------------------ implementation side
-EXC = {'UserErr': 'XUser', 'SQLObjectNotFound': 'XNotFound', 'OperationalError': 'XLocked', 'AttributeError': 'XAttribute'}
+EXC = {'UserErr': 'XUser', 'SQLObjectNotFound': 'XNotFound', 'OperationalError': 'XLocked', 'AttributeError': 'XAttribute',
+       'DuplicateEntryError': 'XDuplicate'}
 
 
 class Worker(threading.Thread):
@@ -429,7 +498,7 @@ class Worker(threading.Thread):
         own = self.sh['slots'][self.idx]
         parent = self.sh['conns'][own if own is not None else self.sh['proc']]
         raw = sqlite3.connect(self.sh['fn'], timeout=0, isolation_level=None)
-        row = raw.execute('SELECT id, a, b FROM %s WHERE id = ?' % TABLE, (pid,)).fetchone()
+        row = raw.execute('SELECT id, a, b, u FROM %s WHERE id = ?' % TABLE, (pid,)).fetchone()
         p = cls.get(pid, connection=parent)
         raw.execute('DELETE FROM %s WHERE id = ?' % TABLE, (pid,))
         p.expire()
@@ -437,7 +506,7 @@ class Worker(threading.Thread):
             p.a
         except SQLObjectNotFound:
             pass
-        raw.execute('INSERT INTO %s (id, a, b) VALUES (?, ?, ?)' % TABLE, row)
+        raw.execute('INSERT INTO %s (id, a, b, u) VALUES (?, ?, ?, ?)' % TABLE, row)
         raw.close()
         self.broken = p          # the application still holds it
 
@@ -534,6 +603,8 @@ class Worker(threading.Thread):
                     self.held[st[1]].destroySelf()
                 elif st[0] == 'deletemany':
                     cls.deleteMany(cls.q.id == st[1])
+                elif st[0] in ('ucreate', 'uupdate', 'uwrite'):
+                    created += self.ustep(st)
                 elif st[0] == 'fail':
                     raise self.sh['errors'][st[1]]
             except Exception as e:  # noqa
@@ -544,6 +615,30 @@ class Worker(threading.Thread):
             raise Abort()
         self.returned = True
         return created
+
+    def ustep(self, st):
+        """a statement on the UNIQUE column; when it is refused and the step is guarded the program catches that and carries on"""
+        from sqlobject.dberrors import DuplicateEntryError
+        cls = self.sh['cls']
+        made = []
+        o = None
+        if st[0] == 'uupdate':
+            o = cls.get(st[2])                  # not-found is not caught
+            self.keep.append(o)
+        try:
+            if st[0] == 'ucreate':
+                o = cls(a=st[2], b=st[3], u=st[4])
+                made.append(o.id)
+                self.keep.append(o)
+            elif st[0] == 'uupdate':
+                o.u = st[3]
+            else:
+                self.held[st[2]].u = st[3]
+        except DuplicateEntryError:
+            if not st[1]:
+                raise
+        del o
+        return made
 
     def plain(self, st):
         """an ordinary write through the hub, outside any doInTransaction"""
@@ -561,6 +656,8 @@ class Worker(threading.Thread):
                 self.held[st[1]].destroySelf()
             elif st[0] == 'deletemany':
                 cls.deleteMany(cls.q.id == st[1])
+            elif st[0] in ('ucreate', 'uwrite'):
+                v = self.ustep(st)
             else:
                 raise RuntimeError('not an ordinary write: %r' % (st,))
             return ['ret', v]
@@ -642,8 +739,8 @@ def run_case(case, workdir):
     setupc = SQLiteConnection(fn, timeout=0)
     cls.createTable(connection=setupc)
     raw = sqlite3.connect(fn, timeout=0, isolation_level=None)
-    for a, b in case['rows']:
-        raw.execute('INSERT INTO %s (a, b) VALUES (?, ?)' % TABLE, (a, b))
+    for r in case['rows']:
+        raw.execute('INSERT INTO %s (a, b, u) VALUES (?, ?, ?)' % TABLE, tuple(list(r) + [None] * (3 - len(r))))
     setupc.close()
     cache = bool(case.get('cache', True))
     slots, proc, nconn = hubcfg(case)
@@ -662,7 +759,7 @@ def run_case(case, workdir):
             raise RuntimeError('worker did not start')
 
     def table():
-        rows = [[r[0], [r[1], r[2]]] for r in raw.execute('SELECT id, a, b FROM %s ORDER BY id' % TABLE).fetchall()]
+        rows = [[r[0], [r[1], r[2], r[3]]] for r in raw.execute('SELECT id, a, b, u FROM %s ORDER BY id' % TABLE).fetchall()]
         seq = raw.execute("SELECT seq FROM sqlite_sequence WHERE name = '%s'" % TABLE).fetchall()
         return [rows, (seq[0][0] if seq else 0) + 1]
 
@@ -740,6 +837,12 @@ def cstep(s):
         return '(BErase %s)' % z(s[1])
     if s[0] == 'deletemany':
         return '(BDeleteMany %s)' % z(s[1])
+    if s[0] == 'ucreate':
+        return '(BCreateU %s %s %s %s)' % (cb(s[1]), cval(s[2]), cval(s[3]), cval(s[4]))
+    if s[0] == 'uupdate':
+        return '(BUpdateU %s %s %s)' % (cb(s[1]), z(s[2]), cval(s[3]))
+    if s[0] == 'uwrite':
+        return '(BWriteU %s %s %s)' % (cb(s[1]), z(s[2]), cval(s[3]))
     return '(BFail %d%%nat)' % s[1]
 
 
@@ -764,7 +867,7 @@ def cresult(r):
         return '(Return [%s])' % '; '.join(z(i) for i in r[1])
     code = r[1]
     # anything else (e.g. XCommit: an exception out of commit(close=True) after the body returned) is nothing the model produces
-    e = {'XUser': '(XUser %d%%nat)' % r[2], 'XNotFound': 'XNotFound', 'XLocked': 'XLocked', 'XNoConnection': 'XNoConnection'}.get(code, 'XNested')
+    e = {'XUser': '(XUser %d%%nat)' % r[2], 'XNotFound': 'XNotFound', 'XLocked': 'XLocked', 'XNoConnection': 'XNoConnection', 'XDuplicate': 'XDuplicate'}.get(code, 'XNested')
     return '(Raised %s %d%%nat)' % (e, r[3])
 
 
@@ -797,12 +900,23 @@ def coq_case(case, obs):
 # ------------------------------------------------------------------ oracle: the property on the observations alone
 def replay_writes(table, body_prefix):
     """the writes of the body applied to the table (what 'commits everything the function did' means)"""
+    return replay_all(table, body_prefix)[:2]
+
+
+def replay_all(table, body_prefix):
+    """-> (table, created ids, indices of the steps the UNIQUE column refuses).  A refused statement writes nothing; whatever
+    else the body did -- before it and after it -- counts"""
     rows = {r[0]: list(r[1]) for r in table[0]}
     nxt = table[1]
     created = []
-    for s in body_prefix:
+    refused = []
+
+    def taken(u, but=None):
+        return u is not None and any(r[2] == u for i, r in rows.items() if i != but)
+
+    for k, s in enumerate(body_prefix):
         if s[0] == 'create':
-            rows[nxt] = [s[1], s[2]]
+            rows[nxt] = [s[1], s[2], None]
             created.append(nxt)
             nxt += 1
         elif s[0] in ('update', 'hupdate'):
@@ -810,7 +924,20 @@ def replay_writes(table, body_prefix):
                 rows[s[1]][s[2]] = s[3]
         elif s[0] in ('delete', 'hdestroy', 'deletemany'):
             rows.pop(s[1], None)
-    return [[[i, rows[i]] for i in sorted(rows)], nxt], created
+        elif s[0] == 'ucreate':
+            if taken(s[4]):
+                refused.append(k)
+            else:
+                rows[nxt] = [s[2], s[3], s[4]]
+                created.append(nxt)
+                nxt += 1
+        elif s[0] in ('uupdate', 'uwrite'):
+            if s[2] in rows:
+                if taken(s[3], but=s[2]):
+                    refused.append(k)
+                else:
+                    rows[s[2]][2] = s[3]
+    return [[[i, rows[i]] for i in sorted(rows)], nxt], created, refused
 
 
 def fail(k, what, **kw):
@@ -854,12 +981,18 @@ def failures(case, obs):
             w = plains_of(P[t])[after['nplain'] - 1]
             if pres[0] == 'ret':
                 # durable at once: the independent connection sees exactly this write
-                want, created = replay_writes(prev['table'], [w])
+                want, created, refused = replay_all(prev['table'], [w])
+                if refused and not w[1]:
+                    yield fail(k, 'an ordinary write the UNIQUE column refuses raised nothing', thread=t, kind='plain_swallowed', write=w)
                 if cur['table'] != want:
                     yield fail(k, 'an ordinary write outside any doInTransaction is not in the committed table at once (or more than it is)',
                                thread=t, kind='plain_not_durable', write=w, expected=want, actual=cur['table'])
                 if pres[1] != created:
                     yield fail(k, 'an ordinary create did not get the next id', thread=t, kind='plain_value', expected=created, actual=pres[1])
+            elif pres[1] == 'XDuplicate':
+                if not (w[0] in ('ucreate', 'uwrite') and not w[1] and replay_all(prev['table'], [w])[2]):
+                    yield fail(k, 'an ordinary write raised DuplicateEntryError although the UNIQUE column does not refuse it (or the program catches it)',
+                               thread=t, kind='plain_refused', write=w, result=pres)
             else:
                 busy = [j for j, x in enumerate(prev['threads']) if j != t and x['phase'] == 'run']
                 if pres[1] != 'XLocked' or not busy:
@@ -870,7 +1003,10 @@ def failures(case, obs):
             body = calls_of(P[t])[after['ncalls'] - 1] if 'ncalls' in after else case['bodies'][t]
             r = after['result']
             if r[0] == 'ret':
-                want, created = replay_writes(prev['table'], body)
+                want, created, refused = replay_all(prev['table'], body)
+                if any(not body[i][1] for i in refused):
+                    yield fail(k, 'doInTransaction returned although a statement of the body was refused and the body does not catch that',
+                               thread=t, kind='swallowed')
                 if any(s[0] == 'fail' for s in body):
                     yield fail(k, 'doInTransaction returned although the body raises', thread=t, kind='swallowed')
                 if cur['table'] != want:
@@ -887,7 +1023,15 @@ def failures(case, obs):
                 fails = [(i, s) for i, s in enumerate(body) if s[0] == 'fail']
                 if r[1] == 'XUser' and (not fails or fails[0][1][1] != r[2] or fails[0][0] != r[3]):
                     yield fail(k, 'not the exception the body raised', thread=t, kind='other_exception', result=r)
-                if r[1] not in ('XUser', 'XNotFound', 'XLocked', 'XCommit'):
+                if r[1] == 'XDuplicate':
+                    # the step that raised is one the UNIQUE column refuses -- given what the body did before it -- and it is not guarded
+                    st = body[r[3]] if r[3] < len(body) else None
+                    ok = st is not None and st[0] in ('ucreate', 'uupdate', 'uwrite') and not st[1] and \
+                        r[3] in replay_all(prev['table'], body[:r[3] + 1])[2]
+                    if not ok:
+                        yield fail(k, 'doInTransaction raised DuplicateEntryError out of a step the UNIQUE column does not refuse (or the body catches it)',
+                                   thread=t, kind='other_exception', result=r)
+                if r[1] not in ('XUser', 'XNotFound', 'XLocked', 'XCommit', 'XDuplicate'):
                     yield fail(k, 'doInTransaction raised %s' % r[1], thread=t, kind='unexpected_exception', result=r)
             if after['tx'] is not None and after['tx'] != [True, True]:
                 yield fail(k, 'the transaction is not obsolete / its low-level connection not released after doInTransaction',
@@ -934,7 +1078,8 @@ def key(case):
 
 def distribution(cases, obs):
     d = {'mode': {}, 'threads': {}, 'results': {}, 'bodies_by_len': {}, 'commits_with_writes': 0, 'unfinished_threads': 0,
-         'histories': 0, 'calls_per_thread': {}, 'plain_results': {}, 'fail_write_fail': 0}
+         'histories': 0, 'calls_per_thread': {}, 'plain_results': {}, 'fail_write_fail': 0,
+         'returning_bodies_with_caught_refusal_after_a_write': 0, 'raising_bodies_with_caught_refusal_after_a_write': 0}
     for c, o in zip(cases, obs):
         if not isinstance(o, dict) or 'steps' not in o or not o['steps']:
             continue
@@ -957,6 +1102,11 @@ def distribution(cases, obs):
                 d['bodies_by_len'][L] = d['bodies_by_len'].get(L, 0) + 1
                 if r[0] == 'ret' and any(s[0] != 'fail' for s in body):
                     d['commits_with_writes'] += 1
+                upto = body if r[0] == 'ret' else body[:r[3]]
+                ref = [i for i in replay_all(prev['table'], upto)[2] if upto[i][1]]
+                if ref and any(s[0] not in ('fail', 'ucreate', 'uupdate', 'uwrite') for s in upto[:ref[0]]):
+                    d['returning_bodies_with_caught_refusal_after_a_write' if r[0] == 'ret' else
+                      'raising_bodies_with_caught_refusal_after_a_write'] += 1
                 seen[t].append(r[0])
             if a.get('nplain', 0) > b.get('nplain', 0):
                 r = a['last_plain']
